@@ -527,12 +527,17 @@ def head_clauses(c, st0, head):
 @contract("gunicorn.http.wsgi:Response.write", props=("C02", "C19"))
 class RespWrite(Contract):
     def cases(self, env):
-        st = base_state(env)
-        r = mk_response(env, st)
-        A = z3.Array("A", I, I)
-        n = z3.Int("arg.len")
-        st.assume(n >= 0)
-        return [("bytes", st, {"self": r, "arg": mk_win(A, 0, n)}, {})]
+        out = []
+        for hs in (False, True):
+            st = base_state(env)
+            r = mk_response(env, st, headers_sent=hs)
+            seq = st.obj(st.obj(r).fields["headers"]).sym
+            st.assume(all_hdrs_ok(seq))
+            A = z3.Array("A", I, I)
+            n = z3.Int("arg.len")
+            st.assume(n >= 0)
+            out.append(("bytes,headers_sent=%s" % hs, st, {"self": r, "arg": mk_win(A, 0, n)}, {}))
+        return out
 
     def pre(self, c):
         return RI_resp(c, c.st) + SendHeaders.pre(SendHeaders(), c)
@@ -575,6 +580,9 @@ class RespWrite(Contract):
             out += [("identity:wire'==wire++arg[:k]", Implies(Not(ch), Or(And(k == 0, dl == 0), tail_struct_eq(w1, w0, enc_id)))),
                     ("chunked:wire'==wire++one-chunk(arg)-or-nothing-for-empty", Implies(ch, Or(And(k == 0, dl == 0), tail_struct_eq(w1, w0, chunk_enc(piece, k))))),
                     ("never-an-empty-chunk", Implies(And(ch, k == 0), dl == 0))]
+            has_code, code = opt_int(F(c, st0, "status_code"))
+            bodyless = Or(is_head(c, st0), And(has_code, Or(code < 200, code == 204, code == 304)))
+            out.append(("RFC9110-6.4.1:no-body-bytes-on-HEAD-1xx-204-304", Implies(bodyless, dl == 0)))
         return out
 
     def cases_hs(self, env):
